@@ -31,6 +31,95 @@ func Make(shape string, seed int64, n int) []byte {
 	r := rand.New(rand.NewSource(seed*7919 + int64(len(shape))*104729 + 17))
 	b := make([]byte, 0, n+64)
 
+	// parametric shapes "<kind>:<value>" used for boundary sweeps of length / distance encodings
+	if i := strings.IndexByte(shape, ':'); i > 0 {
+		v := 0
+		for _, ch := range shape[i+1:] {
+			if ch >= '0' && ch <= '9' {
+				v = v*10 + int(ch-'0')
+			}
+		}
+		rb := func(k int) []byte {
+			x := make([]byte, k)
+			r.Read(x)
+			return x
+		}
+		filler := func() {
+			t := Make("text", seed+11, n)
+			for len(b) < n {
+				b = append(b, t[len(b)%len(t)])
+			}
+		}
+		switch shape[:i] {
+		case "litrun":
+			// a literal run of exactly v incompressible bytes, then a long match (copy of the first 8 KiB), then text.
+			// No 4 bytes occur twice inside the run (a chance repetition would let a match finder split the run).
+			lit := rb(v)
+			seen := make(map[uint32]bool, v)
+			for p := 0; p+4 <= len(lit); p++ {
+				k := binary.LittleEndian.Uint32(lit[p:])
+				for tries := 0; seen[k] && tries < 64; tries++ {
+					lit[p+3] = byte(r.Intn(256))
+					k = binary.LittleEndian.Uint32(lit[p:])
+				}
+				seen[k] = true
+			}
+			b = append(b, lit...)
+			k := 8192
+			if k > len(lit) {
+				k = len(lit)
+			}
+			b = append(b, lit[:k]...)
+			filler()
+		case "match":
+			// a match of exactly v bytes: a random segment of v bytes, a separator, the same segment, a byte that differs
+			seg := rb(v)
+			b = append(b, rb(24)...)
+			b = append(b, seg...)
+			b = append(b, rb(40)...)
+			b = append(b, seg...)
+			b = append(b, rb(24)...)
+			filler()
+		case "dist":
+			// the same 48 random bytes twice, exactly v bytes apart
+			seg := rb(48)
+			b = append(b, seg...)
+			if v > 48 {
+				b = append(b, rb(v-48)...)
+			}
+			b = append(b, seg...)
+			filler()
+		case "runlen", "zrun":
+			// a run of exactly v equal bytes (zeros for zrun) between incompressible neighbours, then text, then the same run at the end
+			c := byte(0)
+			if shape[:i] == "runlen" {
+				c = byte(1 + r.Intn(255))
+			}
+			b = append(b, rb(16)...)
+			for k := 0; k < v; k++ {
+				b = append(b, c)
+			}
+			b = append(b, c^0x5A)
+			b = append(b, rb(16)...)
+			if len(b)+v+1 < n {
+				t := Make("text", seed+11, n-len(b)-v-1)
+				b = append(b, t...)
+				for k := 0; k < v; k++ {
+					b = append(b, c)
+				}
+			}
+			filler()
+		default:
+			b = b[:0]
+		}
+		if len(b) > 0 {
+			if len(b) > n {
+				b = b[:n]
+			}
+			return b
+		}
+	}
+
 	switch shape {
 	case "random":
 		b = b[:n]
